@@ -4,6 +4,7 @@ use crate::vm::continuation::Continuation;
 use crate::vm::gc;
 use crate::vm::gc::State;
 use crate::vm::lambda::Lambda;
+use crate::vm::opcode::OpCode;
 use crate::vm::vcell::VCell;
 use log::trace;
 use num::ToPrimitive;
@@ -474,9 +475,21 @@ impl Heap {
     ///
     /// Iterate the lambda byte code and mark any value that contains a reference type
     pub fn mark_lambda(&mut self, lambda: &Lambda) {
-        // Mark every bytecode cell
+        // Mark every bytecode cell, except the operands of JMP and JNT: those
+        // are offsets into this lambda's bytecode, not references into the heap
+        let mut is_offset = false;
         for it in &lambda.bc {
-            self.mark_vcell(it)
+            match it {
+                VCell::OpCode(op) => {
+                    is_offset = matches!(op, OpCode::Jmp | OpCode::Jnt);
+                }
+                operand => {
+                    if !is_offset {
+                        self.mark_vcell(operand);
+                    }
+                    is_offset = false;
+                }
+            }
         }
 
         // Mark every argument (symbol)
